@@ -71,6 +71,15 @@ def runCase (st : DState) (what id : String) : List String :=
   let g := st.triples.toList
   let body : List String :=
     match what with
+    | "keys" =>
+      let sel := Spec.selectionOf st.cfg st.selTriples.toList
+      let classes := Spec.dedup ((Dict.keys sel).flatMap fun n => Spec.classesIn sel n)
+      classes.flatMap fun c =>
+        ("KC\t" ++ c ++ "\t" ++ toString (Spec.classSize sel c)) ::
+        (Spec.observedKeys st.cfg sel g c).map fun k =>
+          "K\t" ++ (if k.1 then "I" else "D") ++ "\t" ++ k.2.1 ++ "\t" ++
+            (match k.2.2 with | .datatype d => "dt:" ++ d | .nonliteral => "nonliteral" | .classValue v => "cv:" ++ v)
+            ++ "\t" ++ toString (Spec.keyCount st.cfg sel g c k.1 k.2.1 k.2.2)
     | "spec" =>
       let sel := Spec.selectionOf st.cfg st.selTriples.toList
       st.queries.toList.map fun q =>
